@@ -2,14 +2,16 @@
 # Builds the verifx engine inside /repo's module namespace through an overlay (nothing is written under /repo).
 set -e
 export GOFLAGS=-mod=mod GOPROXY=off
-cd /verif
+V="${VERIF_DIR:-$(cd "$(dirname "$0")" && pwd)}"
+cd "$V"
 mkdir -p .work bin
-python3 - <<'PY'
+VDIR="$V" python3 - <<'PY'
 import json,glob,os
+v=os.environ['VDIR']
 rep={}
-for f in glob.glob('/verif/engine/*.go'):
+for f in glob.glob(v+'/engine/*.go'):
     rep['/repo/cmd/zz_verifx/'+os.path.basename(f)]=f
-json.dump({'Replace':rep},open('/verif/.work/engine_overlay.json','w'))
+json.dump({'Replace':rep},open(v+'/.work/engine_overlay.json','w'))
 PY
 cd /repo
-go build -overlay /verif/.work/engine_overlay.json -o /verif/bin/verifx ./cmd/zz_verifx
+go build -overlay "$V/.work/engine_overlay.json" -o "$V/bin/verifx" ./cmd/zz_verifx
